@@ -25,3 +25,112 @@ def light():
     import logging
     logging.disable(logging.CRITICAL)
     return supybot
+
+
+# ------------------------------------------------------------------------------------------
+# full bot: a real irclib.Irc with real plugins, world.testing == False (production firewall
+# and capability paths).  See memory/limnoria-harness-gotchas for why each line is here.
+# ------------------------------------------------------------------------------------------
+_REGISTRY = """
+supybot.directories.data: %(d)s/data
+supybot.directories.conf: %(d)s/conf
+supybot.directories.log: %(d)s/logs
+supybot.directories.backup: %(d)s/backup
+supybot.directories.data.tmp: %(d)s/tmp
+supybot.directories.data.web: %(d)s/web
+supybot.reply.whenNotCommand: True
+supybot.log.stdout: False
+supybot.log.stdout.level: CRITICAL
+supybot.log.level: CRITICAL
+supybot.log.format: %%(levelname)s %%(message)s
+supybot.log.plugins.individualLogfiles: False
+supybot.protocols.irc.throttleTime: 0
+supybot.reply.whenAddressedBy.chars: @
+supybot.networks.test.server: should.not.need.this
+supybot.networks.test.ssl: False
+supybot.nick: test
+supybot.databases.users.allowUnregistration: True
+supybot.abuse.flood.command: False
+supybot.abuse.flood.command.invalid: False
+supybot.abuse.flood.ctcp: False
+"""
+
+class Bot(object):
+    """handle on the live bot: .irc, .conf, .ircdb, .world, .ircmsgs, .callbacks ..."""
+    pass
+
+_bot = None
+
+def full(plugins=('Owner', 'Misc', 'User', 'Admin', 'Config', 'Channel', 'Utilities'),
+         plugin_dirs=(), extra_registry='', nick='test'):
+    """Build (once per process) a live bot in a scratch dir.  Returns a Bot handle.
+    The process must be ended with os._exit (plugins may start non-daemon threads);
+    harness/main.py does that."""
+    global _bot
+    if _bot is not None:
+        return _bot
+    d = scratch()
+    for sub in ('data', 'conf', 'logs', 'backup', 'tmp', 'web'):
+        os.makedirs(os.path.join(d, sub), exist_ok=True)
+    rf = os.path.join(d, 'conf', 'test.conf')
+    with open(rf, 'w') as f:
+        f.write(_REGISTRY % {'d': d})
+        f.write(extra_registry)
+    import supybot
+    src = os.path.realpath(os.path.dirname(supybot.__file__))
+    if src != os.path.realpath(os.path.join(REPO, 'src')):
+        raise RuntimeError('supybot imported from %s' % src)
+    import supybot.registry as registry
+    registry.open_registry(rf)
+    import supybot.log as log
+    import supybot.conf as conf
+    conf.allowEval = True
+    conf.supybot.flush.setValue(False)
+    import logging
+    logging.disable(logging.CRITICAL)
+    import supybot.world as world, supybot.ircdb as ircdb, supybot.irclib as irclib
+    import supybot.ircmsgs as ircmsgs, supybot.callbacks as callbacks, supybot.plugin as plugin
+    import supybot.ircutils as ircutils, supybot.schedule as schedule, supybot.drivers as drivers
+    assert world.testing is False
+    world.startedAt = 0
+    conf.supybot.directories.plugins.setValue([os.path.join(REPO, 'plugins')] + list(plugin_dirs))
+    conf.registerNetwork('test')
+    irc = irclib.Irc('test')
+    b = Bot()
+    b.dir = d; b.irc = irc; b.conf = conf; b.world = world; b.ircdb = ircdb; b.irclib = irclib
+    b.ircmsgs = ircmsgs; b.callbacks = callbacks; b.plugin = plugin; b.ircutils = ircutils
+    b.schedule = schedule; b.drivers = drivers; b.registry = registry; b.log = log
+    b.nick = nick
+    b.loaded = []
+    for name in plugins:
+        load_plugin(b, name)
+    _bot = b
+    return b
+
+def load_plugin(b, name):
+    module = b.plugin.loadPluginModule(name)
+    cb = b.plugin.loadPluginClass(b.irc, module)
+    b.loaded.append(name)
+    return cb
+
+def drain(b, limit=1000):
+    """take every queued outgoing message"""
+    out = []
+    for _ in range(limit):
+        m = b.irc.takeMsg()
+        if m is None:
+            break
+        out.append(m)
+    return out
+
+def register_welcome(b, nick=None):
+    """feed 001/376-ish so that irc.nick / afterConnect are set (no real server)"""
+    nick = nick or b.nick
+    b.irc.feedMsg(b.ircmsgs.IrcMsg(':server 001 %s :Welcome' % nick))
+    return drain(b)
+
+def feed(b, prefix, target, text):
+    """deliver a PRIVMSG from `prefix` to `target` and return the messages the bot queued"""
+    m = b.ircmsgs.privmsg(target, text, prefix=prefix)
+    b.irc.feedMsg(m)
+    return drain(b)
